@@ -328,7 +328,10 @@ pub fn run(ctx: &mut Ctx) {
             .iter()
             .map(|l| {
                 let s0 = t;
-                t += ((rng.range(6, 40) as f64 + *rng.pick(&[0.0, 0.25, 0.75])) * unit) as u64;
+                // (one label in five shorter than its five states: it still takes one frame per
+                // state, and the labels after it give the excess back)
+                let frames = if rng.chance(0.2) { rng.range(0, 4) } else { rng.range(6, 40) };
+                t += ((frames as f64 + *rng.pick(&[0.0, 0.25, 0.75])) * unit) as u64;
                 ann.push(Ann { start: Some(s0), end: Some(t) });
                 format!("{} {} {}", s0, t, l)
             })
